@@ -38,7 +38,11 @@ META = {
     "design_ref": "DESIGN.md section 5 (C07), Appendix C.1-C.2",
 }
 
-DIMS = ("depth", "fan", "wrap", "nest-", "xtype-", "xdims", "split", "xpre-", "ypre-")
+# programs on which the as-built configuration of the spec must violate an invariant (base class in another package)
+ASBUILT_WITNESSES = [
+    {"depth": 2, "fan": 1, "same": False, "wrap": 3, "nest": "lib", "split": ["none", "one"], "xtype": "Real", "xdims": 0,
+     "xpre": "", "ypre": "", "ieq": False, "attr": "", "mods": [], "clash": False, "shadow": False},
+]
 
 
 def record_for(prog, j, r, asbuilt):
@@ -123,11 +127,16 @@ def run(ctx):
     if missing:
         raise MachineryError("vacuous: family shapes never generated: %s" % missing)
     # as-built configuration: TLC must find the violated invariant, and its predictions must match the code
-    ab_progs, ab_res = inst_run.run_spec(ctx, "Instantiate_C07_asbuilt.cfg", "as-built switches: TLC is expected to report a violation",
-                                         shards=1, expect_violation=True)
-    violated = sorted({v for r in ab_res for v in r.violated})
-    if not violated:
-        raise MachineryError("as-built configuration of Instantiate.tla no longer violates any invariant (switches out of date?)")
+    violated = {}
+    for k, w in enumerate(ASBUILT_WITNESSES):
+        _, ab_res = inst_run.run_file_family(ctx, "Instantiate_file_asbuilt.cfg", [w],
+                                             "as-built switches on witness program %d: TLC is expected to report a violation" % k,
+                                             shards=1, expect_violation=True)
+        v = sorted({x for r in ab_res for x in r.violated})
+        if not v:
+            raise MachineryError("as-built configuration of Instantiate.tla does not violate any invariant on witness %d "
+                                 "(switches out of date?)" % k)
+        violated["witness-%d" % k] = v
     lp, _ = inst_run.run_spec(ctx, "Instantiate_C07_asbuilt_log.cfg", "as-built predictions for the cross-check (%s)" % (
         "whole family" if thorough else "an eighth of the family"), shards=8, only=None if thorough else 1)
     items = [(p, j, False) for p in lp for j in range(len(p["variants"]))]
